@@ -93,8 +93,8 @@ struct E<S16>
   {
     S16 s;
     s.a = (double)v;
-    s.b = (int)v * 3;
-    s.c = -(int)v;
+    s.b = (int)(uint32_t)(v * 3);  // unsigned arithmetic: v grows with the case number (thorough tier)
+    s.c = (int)(uint32_t)(0 - v);
     return s;
   }
 };
